@@ -213,10 +213,6 @@ package dnsforward
 //@   modifies rr.Value, elems(rr.Value)
 //@   loop 1 invariant forall j int :: {mark(j)} 0 <= j && j < #i ==> !kvBlocked(rr.Value[j], setts)
 
-//@ func (s *Server) genDNSFilterMessage(dctx *proxy.DNSContext, res *filtering.Result) (resp *dns.Msg)
-//@   trusted
-//@   ensures resp != nil && fresh(resp)
-//@   modifies nothing
 
 //@ define rrBlocked(rr dns.RR, setts *filtering.Settings) bool = (typeIs(rr, *dns.CNAME) && ruleBlocked(strings.TrimSuffix(unbox(rr, *dns.CNAME).Target, "."), 5, setts)) || (typeIs(rr, *dns.A) && ruleBlocked(unbox(rr, *dns.A).A.String(), 1, setts)) || (typeIs(rr, *dns.AAAA) && ruleBlocked(unbox(rr, *dns.AAAA).AAAA.String(), 28, setts)) || (typeIs(rr, *dns.HTTPS) && httpsV[unbox(rr, *dns.HTTPS)])
 // The first offending record - wherever it sits - replaces the response; without one the answer is delivered unchanged.
@@ -247,9 +243,9 @@ package dnsforward
 //@   modifies *
 
 //@ func (s *Server) processFilteringAfterResponse(dctx *dnsContext) (rc resultCode)
-//@   property C02
+//@   property C01, C02
 //@   requires !held(s.serverLock) && !rheld(s.serverLock)
-//@   requires dctx.result != nil && dctx.setts != nil && dctx.proxyCtx != nil && dctx.proxyCtx.Res != nil && dctx.proxyCtx.Req != nil && len(dctx.proxyCtx.Req.Question) > 0 && len(dctx.proxyCtx.Res.Question) > 0
+//@   requires dctx.result != nil && dctx.setts != nil && dctx.proxyCtx != nil && dctx.proxyCtx.Res != nil && dctx.proxyCtx.Req != nil && len(dctx.proxyCtx.Req.Question) > 0 && len(dctx.proxyCtx.Res.Question) > 0 && dnsFilterIdle(s)
 //@   ensures stage-runs: !(old(dctx.result.Reason) == filtering.NotFilteredAllowList || old(dctx.result.Reason) == filtering.Rewritten || old(dctx.result.Reason) == filtering.RewrittenRule || old(dctx.result.Reason) == filtering.FilteredSafeSearch) && old(dctx.protectionEnabled) && old(dctx.responseFromUpstream) && old(dctx.setts.FilteringEnabled) && rc == resultCodeSuccess && dctx.proxyCtx.Res == old(dctx.proxyCtx.Res) ==> (forall k int :: 0 <= k && k < len(old(dctx.proxyCtx.Res.Answer)) ==> !rrBlocked(old(dctx.proxyCtx.Res.Answer)[k], old(dctx.setts)))
 //@   ensures allow-listed-delivered: old(dctx.result.Reason) == filtering.NotFilteredAllowList ==> rc == resultCodeSuccess && dctx.proxyCtx.Res == old(dctx.proxyCtx.Res) && len(dctx.proxyCtx.Res.Answer) == old(len(dctx.proxyCtx.Res.Answer))
 //@   modifies *
@@ -259,7 +255,8 @@ package dnsforward
 //@   requires pctx.Req != nil && pctx.Res != nil
 //@   modifies pctx.Req.AuthenticatedData, pctx.Res.AuthenticatedData
 //@ func (s *Server) processUpstream(dctx *dnsContext) (rc resultCode)
-//@   property C02
+//@   property C01, C02
+//@   callsite (*github.com/AdguardTeam/dnsproxy/proxy.Proxy).Resolve(p, d) requires only-unanswered: d == dctx.proxyCtx && d.Res == nil
 //@   requires dctx.proxyCtx != nil && dctx.proxyCtx.Req != nil && len(dctx.proxyCtx.Req.Question) > 0
 //@   requires dctx.isDHCPHost ==> len(dctx.proxyCtx.Req.Question[0].Name) > 0
 //@   requires !held(s.serverLock) && !rheld(s.serverLock)
@@ -278,3 +275,163 @@ package dnsforward
 //@   requires !held(s.serverLock) && !rheld(s.serverLock)
 //@   ensures p == s.dnsProxy
 //@   modifies nothing
+
+// ---- C01: a blocked query is answered by a locally built message of the configured blocking mode ----
+//@ define localReply(resp *dns.Msg, req *dns.Msg) bool = resp != nil && fresh(resp) && resp.Response && len(resp.Question) == 1 && resp.Question[0] == req.Question[0]
+//@ define ansA(rr dns.RR, name string, ip netip.Addr) bool = typeIs(rr, *dns.A) && fresh(unbox(rr, *dns.A)) && unbox(rr, *dns.A).Hdr.Name == name && unbox(rr, *dns.A).Hdr.Rrtype == 1 && unbox(rr, *dns.A).A == ip.AsSlice()
+//@ define ansAAAA(rr dns.RR, name string, ip netip.Addr) bool = typeIs(rr, *dns.AAAA) && fresh(unbox(rr, *dns.AAAA)) && unbox(rr, *dns.AAAA).Hdr.Name == name && unbox(rr, *dns.AAAA).Hdr.Rrtype == 28 && unbox(rr, *dns.AAAA).AAAA == ip.AsSlice()
+//@ define dnsFilterIdle(s *Server) bool = s.dnsFilter != nil && !held(s.dnsFilter.confMu) && !rheld(s.dnsFilter.confMu)
+
+//@ func (s *Server) hdr(req *dns.Msg, rrType rules.RRType) (h dns.RR_Header)
+//@   property C01
+//@   requires len(req.Question) > 0 && dnsFilterIdle(s)
+//@   ensures h.Name == req.Question[0].Name && h.Rrtype == rrType && h.Class == 1
+//@   modifies nothing
+//@ func (s *Server) genAnswerA(req *dns.Msg, ip netip.Addr) (ans *dns.A)
+//@   property C01
+//@   requires len(req.Question) > 0 && dnsFilterIdle(s)
+//@   ensures fresh(ans) && ans.Hdr.Name == req.Question[0].Name && ans.Hdr.Rrtype == 1 && ans.A == ip.AsSlice()
+//@   modifies nothing
+//@ func (s *Server) genAnswerAAAA(req *dns.Msg, ip netip.Addr) (ans *dns.AAAA)
+//@   property C01
+//@   requires len(req.Question) > 0 && dnsFilterIdle(s)
+//@   ensures fresh(ans) && ans.Hdr.Name == req.Question[0].Name && ans.Hdr.Rrtype == 28 && ans.AAAA == ip.AsSlice()
+//@   modifies nothing
+//@ func (s *Server) genARecord(request *dns.Msg, ip netip.Addr) (r0 *dns.Msg)
+//@   property C01
+//@   requires len(request.Question) > 0 && dnsFilterIdle(s)
+//@   ensures localReply(r0, request) && r0.Rcode == 0 && len(r0.Answer) == 1 && ansA(r0.Answer[0], request.Question[0].Name, ip)
+//@   modifies nothing
+//@ func (s *Server) genAAAARecord(request *dns.Msg, ip netip.Addr) (r0 *dns.Msg)
+//@   property C01
+//@   requires len(request.Question) > 0 && dnsFilterIdle(s)
+//@   ensures localReply(r0, request) && r0.Rcode == 0 && len(r0.Answer) == 1 && ansAAAA(r0.Answer[0], request.Question[0].Name, ip)
+//@   modifies nothing
+
+//@ func (s *Server) genAnswersWithIPv4s(req *dns.Msg, ips []netip.Addr) (ans []dns.RR)
+//@   property C01
+//@   requires len(req.Question) > 0 && dnsFilterIdle(s)
+//@   ensures all-v4: (forall k int :: 0 <= k && k < len(ips) ==> ips[k].Is4()) ==> len(ans) == len(ips) && (forall k int :: {mark(k)} 0 <= k && k < len(ips) ==> ansA(ans[k], req.Question[0].Name, ips[k]))
+//@   ensures otherwise-empty: !(forall k int :: 0 <= k && k < len(ips) ==> ips[k].Is4()) ==> len(ans) == 0
+//@   ensures len(ans) > 0 ==> fresh(arrayOf(ans))
+//@   modifies nothing
+//@   loop 1 invariant len(ans) == #i && (len(ans) == 0 || fresh(arrayOf(ans))) && (ans == nil || fresh(arrayOf(ans)))
+//@   loop 1 invariant forall k int :: {mark(k)} 0 <= k && k < #i ==> ips[k].Is4() && ansA(ans[k], req.Question[0].Name, ips[k])
+
+// Address answers are built from the given addresses only; other query types get an empty local answer.
+//@ func (s *Server) genResponseWithIPs(req *dns.Msg, ips []netip.Addr) (resp *dns.Msg)
+//@   property C01
+//@   requires len(req.Question) > 0 && dnsFilterIdle(s)
+//@   ensures localReply(resp, req) && resp.Rcode == 0
+//@   ensures a-one: req.Question[0].Qtype == 1 && len(ips) == 1 && ips[0].Is4() ==> len(resp.Answer) == 1 && ansA(resp.Answer[0], req.Question[0].Name, ips[0])
+//@   ensures aaaa-one: req.Question[0].Qtype == 28 && len(ips) == 1 && ips[0].Is6() ==> len(resp.Answer) == 1 && ansAAAA(resp.Answer[0], req.Question[0].Name, ips[0])
+//@   ensures other-empty: req.Question[0].Qtype != 1 && req.Question[0].Qtype != 28 ==> len(resp.Answer) == 0
+//@   ensures only-given: forall j int :: {mark(j)} 0 <= j && j < len(resp.Answer) ==> (exists k int :: 0 <= k && k < len(ips) && (ansA(resp.Answer[j], req.Question[0].Name, ips[k]) || ansAAAA(resp.Answer[j], req.Question[0].Name, ips[k])))
+//@   modifies nothing
+//@   loop 1 invariant len(ans) <= #i && (ans == nil || fresh(arrayOf(ans))) && (len(ans) == 0 || fresh(arrayOf(ans)))
+//@   loop 1 invariant (forall k int :: 0 <= k && k < #i ==> ips[k].Is6()) ==> len(ans) == #i
+//@   loop 1 invariant forall j int :: {mark(j)} 0 <= j && j < len(ans) ==> (exists k int :: 0 <= k && k < #i && ansAAAA(ans[j], req.Question[0].Name, ips[k]))
+//@   loop 1 invariant len(ans) == #i ==> (forall j int :: {mark(j)} 0 <= j && j < len(ans) ==> ansAAAA(ans[j], req.Question[0].Name, ips[j]))
+
+//@ func (s *Server) makeResponseNullIP(req *dns.Msg) (resp *dns.Msg)
+//@   property C01
+//@   requires len(req.Question) > 0 && dnsFilterIdle(s)
+//@   ensures localReply(resp, req) && resp.Rcode == 0
+//@   ensures null-a: req.Question[0].Qtype == 1 ==> len(resp.Answer) == 1 && ansA(resp.Answer[0], req.Question[0].Name, netip.IPv4Unspecified())
+//@   ensures null-aaaa: req.Question[0].Qtype == 28 ==> len(resp.Answer) == 1 && ansAAAA(resp.Answer[0], req.Question[0].Name, netip.IPv6Unspecified())
+//@   ensures null-other: req.Question[0].Qtype != 1 && req.Question[0].Qtype != 28 ==> len(resp.Answer) == 0
+//@   modifies nothing
+
+//@ func (s *Server) makeResponseCustomIP(req *dns.Msg, bIPv4 netip.Addr, bIPv6 netip.Addr) (resp *dns.Msg)
+//@   property C01
+//@   requires len(req.Question) > 0 && dnsFilterIdle(s)
+//@   ensures localReply(resp, req) && resp.Rcode == 0
+//@   ensures custom-a: req.Question[0].Qtype == 1 ==> len(resp.Answer) == 1 && ansA(resp.Answer[0], req.Question[0].Name, bIPv4)
+//@   ensures custom-aaaa: req.Question[0].Qtype == 28 ==> len(resp.Answer) == 1 && ansAAAA(resp.Answer[0], req.Question[0].Name, bIPv6)
+//@   ensures custom-other: req.Question[0].Qtype != 1 && req.Question[0].Qtype != 28 ==> len(resp.Answer) == 0
+//@   modifies nothing
+
+//@ func (s *Server) genSOA(req *dns.Msg) (r0 []dns.RR)
+//@   trusted
+//@   modifies nothing
+//@ func (s *Server) NewMsgNXDOMAIN(req *dns.Msg) (resp *dns.Msg)
+//@   property C01
+//@   requires len(req.Question) > 0
+//@   ensures localReply(resp, req) && resp.Rcode == 3 && len(resp.Answer) == 0
+//@   modifies nothing
+//@ func (s *Server) NewMsgNODATA(req *dns.Msg) (resp *dns.Msg)
+//@   property C01
+//@   requires len(req.Question) > 0
+//@   ensures localReply(resp, req) && resp.Rcode == 0 && len(resp.Answer) == 0
+//@   modifies nothing
+
+// The blocking-mode mapping: every mode yields a local reply; the address modes yield exactly the configured address.
+//@ func (s *Server) genForBlockingMode(req *dns.Msg, ips []netip.Addr) (resp *dns.Msg)
+//@   property C01
+//@   requires len(req.Question) > 0 && dnsFilterIdle(s)
+//@   ensures local: localReply(resp, req)
+//@   ensures nxdomain: old(s.dnsFilter.conf.BlockingMode) == filtering.BlockingModeNXDOMAIN ==> resp.Rcode == 3 && len(resp.Answer) == 0
+//@   ensures refused: old(s.dnsFilter.conf.BlockingMode) == filtering.BlockingModeREFUSED ==> resp.Rcode == 5 && len(resp.Answer) == 0
+//@   ensures null-ip: (old(s.dnsFilter.conf.BlockingMode) == filtering.BlockingModeNullIP || (old(s.dnsFilter.conf.BlockingMode) == filtering.BlockingModeDefault && len(ips) == 0)) ==> resp.Rcode == 0 && (req.Question[0].Qtype == 1 ==> len(resp.Answer) == 1 && ansA(resp.Answer[0], req.Question[0].Name, netip.IPv4Unspecified())) && (req.Question[0].Qtype == 28 ==> len(resp.Answer) == 1 && ansAAAA(resp.Answer[0], req.Question[0].Name, netip.IPv6Unspecified()))
+//@   ensures custom-ip: old(s.dnsFilter.conf.BlockingMode) == filtering.BlockingModeCustomIP ==> resp.Rcode == 0 && (req.Question[0].Qtype == 1 ==> len(resp.Answer) == 1 && ansA(resp.Answer[0], req.Question[0].Name, old(s.dnsFilter.conf.BlockingIPv4))) && (req.Question[0].Qtype == 28 ==> len(resp.Answer) == 1 && ansAAAA(resp.Answer[0], req.Question[0].Name, old(s.dnsFilter.conf.BlockingIPv6)))
+//@   ensures rule-ips: old(s.dnsFilter.conf.BlockingMode) == filtering.BlockingModeDefault && len(ips) > 0 ==> resp.Rcode == 0 && (forall j int :: {mark(j)} 0 <= j && j < len(resp.Answer) ==> (exists k int :: 0 <= k && k < len(ips) && (ansA(resp.Answer[j], req.Question[0].Name, ips[k]) || ansAAAA(resp.Answer[j], req.Question[0].Name, ips[k]))))
+//@   modifies nothing
+
+//@ func (s *Server) genBlockedHost(request *dns.Msg, newAddr string, d *proxy.DNSContext) (r0 *dns.Msg)
+//@   trusted
+//@   ensures localReply(r0, request)
+//@   modifies nothing
+//@ func ipsFromRules(resRules []*filtering.ResultRule) (ips []netip.Addr)
+//@   trusted
+//@   ensures len(ips) == 0 || fresh(arrayOf(ips))
+//@   modifies nothing
+//@ func (s *Server) genAnswerCNAME(req *dns.Msg, cname string) (ans *dns.CNAME)
+//@   property C01
+//@   requires len(req.Question) > 0 && dnsFilterIdle(s)
+//@   ensures fresh(ans) && ans.Hdr.Name == req.Question[0].Name && ans.Hdr.Rrtype == 5 && ans.Target == dns.Fqdn(cname)
+//@   modifies nothing
+//@ func (s *Server) getCNAMEWithIPs(req *dns.Msg, ips []netip.Addr, cname string) (resp *dns.Msg)
+//@   property C01
+//@   requires len(req.Question) > 0 && dnsFilterIdle(s)
+//@   ensures localReply(resp, req) && resp.Rcode == 0 && req.Question[0] == old(req.Question[0])
+//@   modifies req.Question[0].Name
+
+// Whatever the reason and the query type, a filtered result is turned into a locally built reply to the same question.
+//@ func (s *Server) genDNSFilterMessage(dctx *proxy.DNSContext, res *filtering.Result) (resp *dns.Msg)
+//@   property C01, C02
+//@   requires dctx.Req != nil && len(dctx.Req.Question) > 0 && dnsFilterIdle(s)
+//@   ensures local: localReply(resp, dctx.Req) && dctx.Req.Question[0] == old(dctx.Req.Question[0])
+//@   ensures other-types: old(dctx.Req.Question[0].Qtype) != 1 && old(dctx.Req.Question[0].Qtype) != 28 && old(dctx.Req.Question[0].Qtype) != 65 ==> resp.Rcode == 0 && len(resp.Answer) == 0
+//@   ensures by-mode-nxdomain: (old(dctx.Req.Question[0].Qtype) == 1 || old(dctx.Req.Question[0].Qtype) == 28 || old(dctx.Req.Question[0].Qtype) == 65) && old(res.Reason) != filtering.FilteredSafeBrowsing && old(res.Reason) != filtering.FilteredParental && old(res.Reason) != filtering.FilteredSafeSearch && old(s.dnsFilter.conf.BlockingMode) == filtering.BlockingModeNXDOMAIN ==> resp.Rcode == 3 && len(resp.Answer) == 0
+//@   ensures by-mode-refused: (old(dctx.Req.Question[0].Qtype) == 1 || old(dctx.Req.Question[0].Qtype) == 28 || old(dctx.Req.Question[0].Qtype) == 65) && old(res.Reason) != filtering.FilteredSafeBrowsing && old(res.Reason) != filtering.FilteredParental && old(res.Reason) != filtering.FilteredSafeSearch && old(s.dnsFilter.conf.BlockingMode) == filtering.BlockingModeREFUSED ==> resp.Rcode == 5 && len(resp.Answer) == 0
+//@   ensures by-mode-null-a: old(dctx.Req.Question[0].Qtype) == 1 && old(res.Reason) != filtering.FilteredSafeBrowsing && old(res.Reason) != filtering.FilteredParental && old(res.Reason) != filtering.FilteredSafeSearch && old(s.dnsFilter.conf.BlockingMode) == filtering.BlockingModeNullIP ==> resp.Rcode == 0 && len(resp.Answer) == 1 && ansA(resp.Answer[0], old(dctx.Req.Question[0].Name), netip.IPv4Unspecified())
+//@   ensures by-mode-custom-aaaa: old(dctx.Req.Question[0].Qtype) == 28 && old(res.Reason) != filtering.FilteredSafeBrowsing && old(res.Reason) != filtering.FilteredParental && old(res.Reason) != filtering.FilteredSafeSearch && old(s.dnsFilter.conf.BlockingMode) == filtering.BlockingModeCustomIP ==> resp.Rcode == 0 && len(resp.Answer) == 1 && ansAAAA(resp.Answer[0], old(dctx.Req.Question[0].Name), old(s.dnsFilter.conf.BlockingIPv6))
+//@   modifies dctx.Req.Question[0].Name
+
+//@ func isRewrittenCNAME(res *filtering.Result) (ok bool)
+//@   property C01
+//@   ensures ok == ((res.Reason == filtering.Rewritten || res.Reason == filtering.RewrittenRule || res.Reason == filtering.FilteredSafeSearch) && res.CanonName != "" && len(res.IPList) == 0)
+//@   modifies nothing
+//@ func (s *Server) filterDNSRewrite(req *dns.Msg, res *filtering.Result, pctx *proxy.DNSContext) (err error)
+//@   trusted
+//@   modifies pctx.Res
+// The request stage: a filtered (blocked) result always leaves a locally built response behind, so the upstream stage
+// has nothing to resolve; an unmatched or allow-listed name leaves the response unset.
+//@ func (s *Server) filterDNSRequest(dctx *dnsContext) (res *filtering.Result, err error)
+//@   property C01
+//@   requires dctx.proxyCtx != nil && dctx.proxyCtx.Req != nil && len(dctx.proxyCtx.Req.Question) > 0 && dctx.setts != nil
+//@   requires idle: dnsFilterIdle(s)
+//@   requires table: filtering.tableOK(s.dnsFilter)
+//@   ensures blocked-answered-locally: err == nil && res.IsFiltered && !((res.Reason == filtering.Rewritten || res.Reason == filtering.RewrittenRule || res.Reason == filtering.FilteredSafeSearch) && res.CanonName != "" && len(res.IPList) == 0) ==> localReply(dctx.proxyCtx.Res, dctx.proxyCtx.Req) && dctx.proxyCtx.Req.Question[0] == old(dctx.proxyCtx.Req.Question[0])
+//@   ensures protection-off-never-blocked: err == nil && !old(dctx.setts.ProtectionEnabled) ==> !res.IsFiltered
+//@   ensures untouched-otherwise: err == nil && !res.IsFiltered && (res.Reason == filtering.NotFilteredNotFound || res.Reason == filtering.NotFilteredAllowList) ==> dctx.proxyCtx.Res == old(dctx.proxyCtx.Res) && dctx.proxyCtx.Req.Question[0] == old(dctx.proxyCtx.Req.Question[0])
+//@   ensures err == nil ==> res != nil
+//@   modifies *
+
+//@ func (s *Server) processFilteringBeforeRequest(dctx *dnsContext) (rc resultCode)
+//@   property C01
+//@   requires dctx.proxyCtx != nil && dctx.proxyCtx.Req != nil && len(dctx.proxyCtx.Req.Question) > 0 && dctx.setts != nil && dnsFilterIdle(s) && filtering.tableOK(s.dnsFilter)
+//@   requires !held(s.serverLock) && !rheld(s.serverLock)
+//@   ensures blocked-answered-locally: rc == resultCodeSuccess && old(dctx.proxyCtx.Res) == nil && dctx.result != nil && dctx.result.IsFiltered && !((dctx.result.Reason == filtering.Rewritten || dctx.result.Reason == filtering.RewrittenRule || dctx.result.Reason == filtering.FilteredSafeSearch) && dctx.result.CanonName != "" && len(dctx.result.IPList) == 0) ==> dctx.proxyCtx.Res != nil && fresh(dctx.proxyCtx.Res)
+//@   ensures already-answered: old(dctx.proxyCtx.Res) != nil ==> rc == resultCodeSuccess && dctx.proxyCtx.Res == old(dctx.proxyCtx.Res)
+//@   modifies *
